@@ -163,4 +163,40 @@ def editSession (o : Origin) (decode : List α → List α) (xs : List α) (h : 
     match materializeAt o decode h2 stored with
     | (h3, r2) => (h3.read stored, h3.deref r2)
 
+/-! ## The other direction: whose arrays does a constructor STORE?
+
+`StoredOrigin` is what the extractor reads off the assignments of an `__init__` body
+(`Gen.Encodings.*StoredOrigin`): `numpy.array(...)`, `numpy.unique`, `numpy.where`, indexing by an index
+array, a list built in the method give the column arrays of its own (`own`); `numpy.asarray(self.values)`,
+a slice of it, or the attribute left as the shared constructor bound it are the caller's input array
+(`aliasInput`) -- were it for one shape of input only (nothing equal to the sparse default, identity codes,
+runs of length one: the shapes for which the stored values *are* the input sequence). -/
+
+/-- Where the array a constructor stores as `self.values` comes from. -/
+inductive StoredOrigin where
+  | own
+  | aliasInput
+  deriving DecidableEq, Repr
+
+/-- A constructor as an operation on the heap: `encode` is what the body computes from the input array at
+`input` (the value-level translation); the result is the address of the stored values.  `aliasInput`: the
+stored array IS the input array (it reads whatever the input currently holds). -/
+def constructAt (o : StoredOrigin) (encode : List α → List α) (h : Heap α) (input : Nat) : Heap α × Nat :=
+  match o with
+  | .own => h.alloc (encode (h.read input))
+  | .aliasInput => (h, input)
+
+/-- Two columns built from ONE input array; `f` applied *in place* to the stored values of the first (any
+in-place form: `values *= 2`, `ufunc(values, out=values)`, `values[:] = ...`, item by item); then both are
+expanded and the input is read again.  Result: (expansion of the first, expansion of the untouched second,
+the input as it reads at the end). -/
+def twinSession (o : StoredOrigin) (encode decode : List α → List α) (f : α → α) (h : Heap α) (input : Nat) :
+    List α × List α × List α :=
+  match constructAt o encode h input with
+  | (h1, s1) =>
+    match constructAt o encode h1 input with
+    | (h2, s2) =>
+      let h3 := h2.write s1 ((h2.read s1).map f)
+      (decode (h3.read s1), decode (h3.read s2), h3.read input)
+
 end Enc
